@@ -19,6 +19,7 @@ from ufl.classes import (
     Index,
     Label,
     MultiIndex,
+    Zero,
 )
 from ufl.core.ufl_type import UFLObject
 from ufl.corealg.traversal import traverse_unique_terminals, unique_post_traversal
@@ -59,6 +60,12 @@ def compute_terminal_hashdata(expressions, renumbering):
                 # signature, thus this algorithm
                 data = compute_multiindex_hashdata(expr, index_numbering)
 
+            elif isinstance(expr, Zero) and expr.ufl_free_indices:
+                # The free indices of a zero need the same canonical
+                # numbering as the indices of a multiindex
+                indices = MultiIndex(tuple(Index(count) for count in expr.ufl_free_indices))
+                numbering = compute_multiindex_hashdata(indices, index_numbering)
+                data = ("Zero", expr.ufl_shape, tuple(sorted(zip(numbering, expr.ufl_index_dimensions))))
             elif isinstance(expr, ConstantValue):
                 data = expr._ufl_signature_data_(renumbering)
 
